@@ -63,7 +63,20 @@ def verify_function(spec, reg):
             # of its free variables (declared as params); the rest of the
             # function is NOT verified and is listed as such
             import ast as _ast, hashlib as _hl
-            if spec.get('fragment_marker'):
+            if spec.get('fragment_after'):
+                # everything that follows the top-level statement containing the
+                # marker, to the end of the function: robust against edits of
+                # the fragment's own statements
+                body = fsrc.node.body
+                at = [k for k, n in enumerate(body) if spec['fragment_after'] in
+                      (_ast.get_source_segment(fsrc.src, n) or '')]
+                if len(at) != 1 or at[0] + 1 >= len(body):
+                    raise SpecError('fragment_after %r matches %d statements of %s (or nothing follows)'
+                                    % (spec['fragment_after'], len(at), spec['qualname']))
+                hit = body[at[0] + 1:]
+                tail = hit[1:]
+                hit = hit[:1]
+            elif spec.get('fragment_marker'):
                 # robust locator: the top-level statement of the function that
                 # contains the marker text (survives edits of its first line)
                 hit = [n for n in fsrc.node.body if spec['fragment_marker'] in
@@ -85,6 +98,8 @@ def verify_function(spec, reg):
                     raise SpecError('fragment end marker %r not found after the fragment start in %s'
                                     % (spec['fragment_until'], spec['qualname']))
                 hit = body[i0:ends[-1] + 1]
+            elif spec.get('fragment_after'):
+                hit = hit + tail
             seg = '\n'.join(_ast.get_source_segment(fsrc.src, h) for h in hit)
             fsrc.dropped.append('FRAGMENT: only lines %d-%d of %s are under contract '
                 '(statement starting %r); the remainder of the function is not verified'
